@@ -217,6 +217,8 @@ static std::string gen_tunnel(uint64_t seed, uint64_t idx, bool thorough) {
                 (unsigned long long)pick_epoch(r), (int)r.chance(0.25), addr, port, (int)r.chance(0.3), (int)r.coin(), stackfill, udp, fd, tscf, count, pick_copy(r, 0.3), (int)(!udp && r.chance(0.4)), read0, (unsigned long long)clkgran, sched_str(r).c_str(), (unsigned long long)lat_lo, (unsigned long long)lat_hi,
                 (unsigned long long)r.range(50, 500), (unsigned long long)r.range(500, 20000), qcap, (unsigned long long)tend,
                 (unsigned long long)r.next(), (long long)big_skew(r), (long long)big_skew(r)));
+    // the Ethernet link flaps once (raw mode): the sockets report ENETDOWN, nothing is lost
+    if (!udp && frame_t.size() > 2 && r.chance(0.08)) o.line(strf("linkflap t=%llu", (unsigned long long)frame_t[r.below(frame_t.size())]));
     for (auto &f : frames) o.line(f);
     // crash and restart of the talker process at an arbitrary instant (twice at most); long runs restart late
     if (r.chance(long_run ? 0.6 : 0.12)) {
